@@ -475,11 +475,31 @@ func c17fold(p *core.Prog, fold *ssa.Function) (bool, string) {
 		return false, "the string substituted into (" + core.Path(rep.Call.Args[0]) + ") is loop-invariant: every iteration restarts from the template, so only the last of several parameters is substituted"
 	}
 	carried, init := false, false
-	for _, e := range phi.Edges {
+	for i, e := range phi.Edges {
 		if e == ssa.Value(rep) {
 			carried = true
 		} else if e == ssa.Value(fold.Params[1]) {
 			init = true
+		} else {
+			// an iteration that keeps the accumulator unchanged: allowed only on an edge that proves the
+			// placeholder does not occur in it (strings.Contains false, strings.Index < 0 / == -1)
+			absent := false
+			for _, cnd := range core.EdgeFacts(phi.Block().Preds[i]) {
+				n := core.Normalize(cnd)
+				if call, isC := n.V.(*ssa.Call); isC && core.StdCallee(&call.Call) == "strings.Contains" && !n.True {
+					absent = true
+				}
+				if cmp, isCmp := core.AsCmp(n); isCmp {
+					if call, isC := core.Resolve(cmp.X).(*ssa.Call); isC && core.StdCallee(&call.Call) == "strings.Index" {
+						if cmp.Op == token.LSS && core.IsIntConst(cmp.Y, 0) || cmp.Op == token.EQL && core.IsIntConst(cmp.Y, -1) || cmp.Op == token.LEQ && core.IsIntConst(cmp.Y, -1) {
+							absent = true
+						}
+					}
+				}
+			}
+			if !absent {
+				return false, "an iteration can leave the template unsubstituted although the placeholder may occur in it (the skip condition does not prove its absence): a parameter is silently not replaced"
+			}
 		}
 	}
 	if !carried || !init {
